@@ -10,14 +10,20 @@ Import ListNotations.
 Close Scope Q_scope.
 Open Scope string_scope.
 
-(* whatever the three sections are: a value at path p of a section is found at
-   section :: p of the training configuration (`veq`: as the same value in container form) *)
+(* whatever the three sections are, provided every scalar in them sits at an option of its own
+   type (`job_coercion_free`: int at a float option, tuple for list allowed — the documented argument
+   types; a scalar of another type is CONVERTED by OmegaConf, see ex_mistyped_argument_is_converted):
+   a value at path p of a section is found at section :: p of the training configuration (`veq`: as
+   the same value in container form) *)
+Definition job_coercion_free (job : cfg) : bool := coercion_free classes (TCls "TrainingJobConfig") false job.
+
 Theorem built_values_reach_training_cfg : forall dc mc tc job c,
   job_of dc mc tc = Ok job -> to_sleap_nn_cfg classes "TrainingJobConfig" job = Ok c ->
+  job_coercion_free job = true ->
   forall sec v p x, In (sec, v) [("data_config", dc); ("model_config", mc); ("trainer_config", tc)] ->
   get p v = Some x -> exists y, get (sec :: p) c = Some y /\ veq x y = true.
 Proof.
-  intros dc mc tc job c J T sec v p x I G.
+  intros dc mc tc job c J T CF sec v p x I G.
   assert (get (sec :: p) job = Some x) as Gj.
   { assert (get [sec] job = Some v) as H.
     { unfold job_of in J. simpl in I.
@@ -26,17 +32,19 @@ Proof.
     destruct (lookup sec kv) as [v'|]; [|discriminate H]. injection H as ->. exact G. }
   unfold to_sleap_nn_cfg in T. apply bind_ok in T. destruct T as [c0 [T M]].
   destruct (has_missing c0); [discriminate M|]. injection M as <-.
-  exact (to_cfg_value_at _ _ _ _ _ _ _ T Gj).
+  exact (to_cfg_value_at _ _ _ _ _ _ _ CF T Gj).
 Qed.
 Print Assumptions built_values_reach_training_cfg.
 
-(* end to end, for ALL argument values of the three builders: if the training configuration
-   is produced at all, every pass-through parameter is found at section.path in it (same
-   value), and normalisation returns the configuration unchanged (so the same holds after
-   verify_training_cfg, any number of times) *)
+(* end to end, for ALL argument values of the three builders that put every scalar at an option of
+   its own type: if the training configuration is produced at all, every pass-through parameter is
+   found at section.path in it (same value), and normalisation returns the configuration unchanged
+   (so the same holds after verify_training_cfg, any number of times).  `verify_training_cfg c = Ok c`
+   needs no typing hypothesis (normalise_identity_on_built). *)
 Theorem arguments_reach_training_cfg : forall ad am at_ dc mc tc job c,
   get_data_config ad = Ok dc -> get_model_config am = Ok mc -> get_trainer_config at_ = Ok tc ->
   job_of dc mc tc = Ok job -> to_sleap_nn_cfg classes "TrainingJobConfig" job = Ok c ->
+  job_coercion_free job = true ->
   verify_training_cfg c = Ok c /\
   (forall p path, In (p, path) DATA_PATHS ->
      exists y, get ("data_config" :: path) c = Some y /\ veq (ad p) y = true) /\
@@ -45,22 +53,49 @@ Theorem arguments_reach_training_cfg : forall ad am at_ dc mc tc job c,
   (forall p path, In (p, path) TRAINER_PATHS ->
      exists y, get ("trainer_config" :: path) c = Some y /\ veq (at_ p) y = true).
 Proof.
-  intros ad am at_ dc mc tc job c D M Tr J T.
+  intros ad am at_ dc mc tc job c D M Tr J T CF.
   split; [exact (normalise_identity_on_built dc mc tc job c J T)|].
   split; [|split]; intros p path I.
-  - apply (built_values_reach_training_cfg dc mc tc job c J T "data_config" dc); [left; reflexivity|].
+  - apply (built_values_reach_training_cfg dc mc tc job c J T CF "data_config" dc); [left; reflexivity|].
     exact (data_pass_through ad dc D p path I).
-  - apply (built_values_reach_training_cfg dc mc tc job c J T "model_config" mc); [right; left; reflexivity|].
+  - apply (built_values_reach_training_cfg dc mc tc job c J T CF "model_config" mc); [right; left; reflexivity|].
     exact (model_pass_through am mc M p path I).
-  - apply (built_values_reach_training_cfg dc mc tc job c J T "trainer_config" tc); [right; right; left; reflexivity|].
+  - apply (built_values_reach_training_cfg dc mc tc job c J T CF "trainer_config" tc); [right; right; left; reflexivity|].
     exact (trainer_pass_through at_ tc Tr p path I).
 Qed.
 Print Assumptions arguments_reach_training_cfg.
 
-(* non-vacuity: the default call of the three builders does produce a training configuration *)
+(* non-vacuity: the default call of the three builders does produce a training configuration, and
+   its job object is coercion-free *)
+Definition base_dkw := [("train_labels_path", VStr "a.slp"); ("val_labels_path", VStr "b.slp")].
+Definition job_for (dkw mkw tkw : list (string * cfg)) : res cfg :=
+  bind (run_builder "get_data_config" dkw) (fun dc =>
+  bind (run_builder "get_model_config" mkw) (fun mc =>
+  bind (run_builder "get_trainer_config" tkw) (fun tc => job_of dc mc tc))).
 Example ex_chain_defaults :
-  is_ok (chain [("train_labels_path", VStr "a.slp"); ("val_labels_path", VStr "b.slp")]
-               [("head_configs", VStr "centroid")] []) = true.
+  is_ok (chain base_dkw [("head_configs", VStr "centroid")] []) = true /\
+  match job_for base_dkw [("head_configs", VStr "centroid")] [] with Ok j => job_coercion_free j | Err _ => false end = true /\
+  match job_for (("crop_hw", VTup [VInt 160; VInt 160]) :: ("max_height", VInt 512) :: base_dkw)
+                [("head_configs", VStr "bottomup"); ("backbone_config", VStr "swint_base")]
+                [("learning_rate", VInt 1); ("lr_scheduler", VStr "step_lr")]
+  with Ok j => job_coercion_free j | Err _ => false end = true /\
+  match job_for (("provider", VInt 123) :: base_dkw) [("head_configs", VStr "centroid")] []
+  with Ok j => job_coercion_free j | Err _ => true end = false.
+Proof. vm_compute. repeat split. Qed.
+
+(* the hypothesis is necessary, and this is the code's behaviour (compared on every run: stream
+   "mistyped"): an argument of another scalar type than its option is stored CONVERTED.  Such
+   arguments are outside the documented argument types the property quantifies over. *)
+Example ex_mistyped_argument_is_converted :
+  match chain (("provider", VInt 123) :: ("chunk_size", VStr "12") :: ("is_rgb", VInt 2) :: base_dkw)
+              [("head_configs", VStr "centroid")] [] with
+  | Ok r => match get ["cfg"; "data_config"; "provider"] r, get ["cfg"; "data_config"; "chunk_size"] r,
+                  get ["cfg"; "data_config"; "preprocessing"; "is_rgb"] r, get ["norm_same"] r with
+            | Some (VStr "123"), Some (VInt 12), Some (VBool true), Some (VBool true) => true
+            | _, _, _, _ => false
+            end
+  | Err _ => false
+  end = true.
 Proof. vm_compute. reflexivity. Qed.
 
 (* ----------------------------------------------------- validators at the entry points *)
@@ -96,10 +131,30 @@ Qed.
 Print Assumptions data_config_rejects_bad_probability.
 
 (* every documented preset with every documented head type reaches the training configuration
-   (finite: 12 x 4) *)
+   (finite: 12 x 4, all other arguments at their defaults); implication form (historic, see PerRunAug.v) *)
 Theorem presets_and_heads_convert : presets_convert_b = true ->
   forallb (fun e => forallb (fun h =>
      is_ok (bind (get_model_config (model_arg (VStr (fst e)) (VStr (fst h)))) (to_sleap_nn_cfg classes "ModelConfig")))
      HEADS) PRESETS = true.
 Proof. intro B. first [ exfalso; vm_compute in B; discriminate B | vm_compute; reflexivity ]. Qed.
 Print Assumptions presets_and_heads_convert.
+
+(* the live statement on the current tree (since fix 95397fc); genuinely finite: the 12 documented
+   preset names x the 4 documented head names, other arguments at their defaults *)
+Theorem presets_and_heads_convert_hold :
+  forallb (fun e => forallb (fun h =>
+     is_ok (bind (get_model_config (model_arg (VStr (fst e)) (VStr (fst h)))) (to_sleap_nn_cfg classes "ModelConfig")))
+     HEADS) PRESETS = true.
+Proof. vm_compute. reflexivity. Qed.
+Print Assumptions presets_and_heads_convert_hold.
+
+(* non-vacuity of the entry-point validator theorems: an in-range probability dict and a valid scale
+   are accepted, out-of-range ones are not *)
+Example ex_entry_point_validators :
+  is_ok (run_builder "get_data_config" (("use_augmentations_train", VBool true) ::
+           ("intensity_aug", VDict [("contrast_p", VFloat (1 # 2))]) :: ("geometry_aug", VDict [("affine_p", VInt 1)]) ::
+           ("scale", VFloat (1 # 2)) :: base_dkw)) = true /\
+  is_ok (run_builder "get_data_config" (("use_augmentations_train", VBool true) ::
+           ("intensity_aug", VDict [("contrast_p", VFloat (3 # 2))]) :: ("geometry_aug", VDict []) :: base_dkw)) = false /\
+  is_ok (run_builder "get_data_config" (("scale", VFloat (-1)) :: base_dkw)) = false.
+Proof. vm_compute. repeat split. Qed.
